@@ -335,6 +335,7 @@ func checkF15(c *Ctx, r *Report) {
 		}
 	}
 	r.Floor("F15-mapping", expandCalls, 10)
+	checkDefaultMapping(c, r)
 	if len(expFns) == 0 {
 		r.Unresolved("expansion function", "no method of *Config calls os.Expand")
 		return
@@ -1011,4 +1012,54 @@ func filterByAppendTrims(fn *ssa.Function) bool {
 		ok = true
 	})
 	return ok
+}
+
+// checkDefaultMapping (F15-default-mapping): the parse entry points that take
+// no mapping resolve references against the process environment - on every
+// path, also for the standard-input spelling "-": every live call they make
+// to a mapping-taking parser hands it os.Getenv (a nil mapping is the
+// identity there, references would stay as written).
+func checkDefaultMapping(c *Ctx, r *Report) {
+	n := 0
+	for _, name := range []string{"Parse", "ParseFile"} {
+		fn := c.Func("", name)
+		if fn == nil {
+			continue
+		}
+		cells := [][]AV{make([]AV, len(fn.Params))}
+		if name == "ParseFile" && len(fn.Params) == 1 {
+			cells = [][]AV{{cStr("-")}, {cStr("nfpm.yaml")}}
+		}
+		for _, args := range cells {
+			n++
+			ev := newEvaluator(c)
+			ev.MaxDepth = 3
+			fr := ev.Explore(fn, args)
+			okM, seen := true, false
+			where := ""
+			for _, li := range fr.LiveInstrs() {
+				call, ok := li.In.(*ssa.Call)
+				if !ok {
+					continue
+				}
+				sc := call.Call.StaticCallee()
+				if sc == nil || sc.Name() != "ParseWithEnvMapping" || !c.isModuleFunc(sc) {
+					continue
+				}
+				seen = true
+				fv, isF := li.F.Eval(call.Call.Args[len(call.Call.Args)-1]).(avFunc)
+				if !isF || fv.fn == nil || fv.fn.Name() != "Getenv" {
+					okM = false
+					where = c.instrPos(call)
+				}
+			}
+			arg := "any"
+			if s, ok := avStr(args[0]); ok {
+				arg = s
+			}
+			r.Check(seen && okM, "F15-default-mapping", fmt.Sprintf("%s(%q) resolves references against the process environment", name, arg), c.pos(fn.Pos()),
+				"on this path the parser is reached with a mapping other than os.Getenv ("+where+"): a nil mapping is replaced by the identity there, so references would be left as written")
+		}
+	}
+	r.Floor("F15-default-mapping", n, 2)
 }
